@@ -8,6 +8,8 @@
 (*                              cfg.SchemaMappings for the FIRST entry whose id       *)
 (*                              matches                                               *)
 (*   generate.go Sources        ranges over g.outputs, collects text per file name    *)
+(*   loaders.go                 QualifiedFileName tries --resolve-extension values in       *)
+(*                              the order of the user's slice                                *)
 (*   utils.go sortedKeys /      properties and definitions are sorted before use      *)
 (*   sortDefinitionsByName                                                            *)
 (*   codegen/model.go           imports and declarations are sorted before emission    *)
@@ -23,20 +25,33 @@ CONSTANTS Schemas,     \* set of schema ids given on the command line
           MapIds,      \* ids named by the mapping flags (may carry a trailing "#")
           PkgOf, OutOf,\* functions MapIds -> package / output name
           Props,       \* function Schemas -> set of property names
+          Exts,        \* --resolve-extension values in the order the user gave them (a sequence)
+          Cands,       \* the extensions for which a candidate file of an extension-less reference exists
           D
 
-VARIABLES phase, order, outputs, emitted
-vars == <<phase, order, outputs, emitted>>
+VARIABLES phase, order, outputs, emitted, picked     \* picked: the extension the loader resolved the reference with
+vars == <<phase, order, outputs, emitted, picked>>
 
 Perms(S) == {p \in [1..Cardinality(S) -> S] : \A i, j \in DOMAIN p : i # j => p[i] # p[j]}
 Matches(m, id) == m = id \/ ("FuzzyIdMatch" \in D /\ (m = id \o "#" \/ m \o "#" = id))
 
-Init == phase = "mappings" /\ order = <<>> /\ outputs = <<>> /\ emitted = <<>>
+Init == phase = "mappings" /\ order = <<>> /\ outputs = <<>> /\ emitted = <<>> /\ picked = "?"
 
 \* main.go: for _, id := range allKeys(...) { cfg.SchemaMappings = append(...) }   (random order)
 AssembleMappings == /\ phase = "mappings"
                     /\ order' \in Perms(MapIds)
-                    /\ phase' = "generate" /\ UNCHANGED <<outputs, emitted>>
+                    /\ phase' = "load" /\ UNCHANGED <<outputs, emitted, picked>>
+
+\* loaders.go QualifiedFileName: the candidates are tried in the order of the --resolve-extension SLICE; the first
+\* existing one wins.  Deviation "ExtOrderByMap" (sensitivity only): the extensions pass through a map first, so any
+\* order can occur.
+FirstIn(seq) == seq[CHOOSE k \in DOMAIN seq : seq[k] \in Cands /\ \A j \in 1..(k - 1) : seq[j] \notin Cands]
+ExtSet == {Exts[k] : k \in DOMAIN Exts}
+Load == /\ phase = "load"
+        /\ IF Cands \cap ExtSet = {} THEN picked' = "none"
+           ELSE IF "ExtOrderByMap" \in D THEN \E p \in Perms(ExtSet) : picked' = FirstIn(p)
+           ELSE picked' = FirstIn(Exts)
+        /\ phase' = "generate" /\ UNCHANGED <<order, outputs, emitted>>
 
 FirstMatch(id) == IF \E k \in DOMAIN order : Matches(order[k], id)
                   THEN order[CHOOSE k \in DOMAIN order : Matches(order[k], id) /\ \A j \in 1..(k - 1) : ~Matches(order[j], id)]
@@ -46,21 +61,21 @@ Generate == /\ phase = "generate"
             /\ outputs' = [s \in Schemas |-> [file |-> IF FirstMatch(s) = "default" THEN "-" ELSE OutOf[FirstMatch(s)],
                                               pkg  |-> IF FirstMatch(s) = "default" THEN "main" ELSE PkgOf[FirstMatch(s)],
                                               decls |-> Props[s]]]          \* declarations are SORTED at emission: a set
-            /\ phase' = "sources" /\ UNCHANGED <<order, emitted>>
+            /\ phase' = "sources" /\ UNCHANGED <<order, emitted, picked>>
 \* Sources(): range over outputs (random order), text collected per file name; declarations sorted inside a file
 Sources == /\ phase = "sources"
            /\ \E p \in Perms(Schemas) :
                 emitted' = [f \in {outputs[s].file : s \in Schemas} |->
                               [pkgs |-> {outputs[s].pkg : s \in {x \in Schemas : outputs[x].file = f}},
                                decls |-> UNION {outputs[s].decls : s \in {x \in Schemas : outputs[x].file = f}}]]
-           /\ phase' = "done" /\ UNCHANGED <<order, outputs>>
+           /\ phase' = "done" /\ UNCHANGED <<order, outputs, picked>>
 Done == phase = "done" /\ UNCHANGED vars
-Next == AssembleMappings \/ Generate \/ Sources \/ Done
+Next == AssembleMappings \/ Load \/ Generate \/ Sources \/ Done
 Spec == Init /\ [][Next]_vars
 
 \* C12: whatever the permutations, the result is the one obtained with exact id matching in any fixed order
 Canonical == [f \in {IF \E m \in MapIds : m = s THEN OutOf[s] ELSE "-" : s \in Schemas} |->
                 [pkgs |-> {IF \E m \in MapIds : m = s THEN PkgOf[s] ELSE "main" : s \in {x \in Schemas : (IF \E m \in MapIds : m = x THEN OutOf[x] ELSE "-") = f}},
                  decls |-> UNION {Props[s] : s \in {x \in Schemas : (IF \E m \in MapIds : m = x THEN OutOf[x] ELSE "-") = f}}]]
-OrderIndependent == phase = "done" => emitted = Canonical
+OrderIndependent == phase = "done" => (emitted = Canonical /\ picked = (IF Cands \cap ExtSet = {} THEN "none" ELSE FirstIn(Exts)))
 =============================================================================
